@@ -22,6 +22,7 @@ def run(rep):
         ["fun (A V : Type) sem sem_slf dv => @C20_loud A V sem sem_slf dv {i} {w}",
          "fun (A V : Type) sem sem_slf dv => @C20_no_fabrication A V sem sem_slf dv {i} {w}"],
         rt_common.std_configs(rng, rep.tier),
+        dfs=("bad_silent", "true"),
         search="c20_search", search_what="client 0 makes a method panic, clients 1 and 2 then call every method (Runtime/Explore.v faulted); anomalies: 1 completed without execution and without panic, 2 fabricated value, 3 caller still inside a call at the end",
         extra_funs=[("drain", "r_drain (elab {i})")], per_model_check=per_model)
     ndrain = sum(1 for r in res if r["drain"] == "true")
